@@ -49,6 +49,15 @@ pub enum Case {
         reuses: u32,
         subs: u8,
     },
+    /// a slot used `reuses` times, then `rejected` insertions into it that fail half-way (composite: an eventfd child the
+    /// poller accepts, then a regular file it refuses; no roll-back, the handed-back source is kept alive, so its first
+    /// child stays known to the poller), then a successor in the same slot: no two entries of the kernel table may
+    /// carry the same key, and an event of a rejected source must not reach the successor
+    Rejected {
+        pre_slots: u8,
+        reuses: u8,
+        rejected: u8,
+    },
     /// a composite of calloop's own sub-sources in the given order (true = `Generic` over an eventfd, false = a child
     /// that just draws its token from the factory, like a Timer or a freshly set TransientSource child), inserted,
     /// then re-registered `updates` times: every live sub-source must hold its own key of the source's (slot, generation)
@@ -127,8 +136,8 @@ fn factory_case() -> impl Strategy<Value = Case> {
 }
 
 fn loop_case() -> impl Strategy<Value = Case> {
-    (0u8..4, prop_oneof![4 => 0u32..6, 1 => proptest::sample::select(vec![255u32, 256, 257])], 1u8..5)
-        .prop_map(|(pre_slots, reuses, subs)| Case::Loop { pre_slots, reuses, subs })
+    (0u8..4, prop_oneof![4 => 0u32..6, 1 => proptest::sample::select(vec![255u32, 256, 257])], 0u8..5)
+        .prop_map(|(pre_slots, reuses, subs)| if subs == 0 { Case::Rejected { pre_slots, reuses: (reuses % 4) as u8, rejected: 1 + (reuses % 3) as u8 } } else { Case::Loop { pre_slots, reuses, subs } })
 }
 
 fn mixed_case() -> impl Strategy<Value = Case> {
@@ -639,6 +648,116 @@ fn keys_of_last_pass(drawn: &Rc<RefCell<Vec<Option<usize>>>>, table: &[usize]) -
     drawn.borrow().iter().flatten().copied().chain(table.iter().copied()).collect()
 }
 
+/// Composite whose children register in order without roll-back (book style): Generic children over the given fds.
+struct RejProbe {
+    gens: Vec<calloop::generic::Generic<kernel::OwnedRaw>>,
+}
+
+impl EventSource for RejProbe {
+    type Event = ();
+    type Metadata = ();
+    type Ret = ();
+    type Error = std::io::Error;
+    fn process_events<F>(&mut self, _: Readiness, _: Token, _cb: F) -> Result<PostAction, Self::Error>
+    where
+        F: FnMut((), &mut ()),
+    {
+        Ok(PostAction::Continue)
+    }
+    fn register(&mut self, poll: &mut Poll, tf: &mut TokenFactory) -> calloop::Result<()> {
+        for g in &mut self.gens {
+            g.register(poll, tf)?;
+        }
+        Ok(())
+    }
+    fn reregister(&mut self, poll: &mut Poll, tf: &mut TokenFactory) -> calloop::Result<()> {
+        for g in &mut self.gens {
+            g.reregister(poll, tf)?;
+        }
+        Ok(())
+    }
+    fn unregister(&mut self, poll: &mut Poll) -> calloop::Result<()> {
+        for g in &mut self.gens {
+            g.unregister(poll)?;
+        }
+        Ok(())
+    }
+}
+
+fn run_rejected(pre_slots: u8, reuses: u8, rejected: u8) -> Option<Violation> {
+    use std::os::unix::io::IntoRawFd;
+    let mut el: EventLoop<()> = EventLoop::try_new().expect("event loop");
+    let epfd = el.as_raw_fd();
+    let base: Vec<(RawFd, u64)> = kernel::epoll_table(epfd).iter().map(|e| (e.tfd, e.data)).collect();
+    let h = el.handle();
+    let mut keep = Vec::new();
+    for _ in 0..pre_slots.min(3) {
+        let (p, s) = calloop::ping::make_ping().unwrap();
+        h.insert_source(s, |_, _, _| {}).unwrap();
+        keep.push(p);
+    }
+    for _ in 0..reuses.min(3) {
+        let (p, s) = calloop::ping::make_ping().unwrap();
+        let t = h.insert_source(s, |_, _, _| {}).unwrap();
+        h.remove(t);
+        drop(p);
+    }
+    let mut handed_back = Vec::new();
+    let mut rejected_fds = Vec::new();
+    for k in 0..rejected.clamp(1, 3) {
+        let good = kernel::eventfd_nonblock();
+        let file = match std::fs::File::open("/proc/self/exe") {
+            Ok(f) => f.into_raw_fd(),
+            Err(_) => return None,
+        };
+        let src = RejProbe {
+            gens: vec![
+                calloop::generic::Generic::new(kernel::OwnedRaw(good), Interest::READ, Mode::Level),
+                calloop::generic::Generic::new(kernel::OwnedRaw(file), Interest::READ, Mode::Level),
+            ],
+        };
+        match h.insert_source(src, |_, _, _| {}) {
+            Ok(_) => return v("C20.kernel", format!("insertion #{k} of a composite with a regular-file child succeeded (the poller is expected to refuse it)")),
+            Err(e) => handed_back.push(e.inserted),
+        }
+        rejected_fds.push(good);
+    }
+    let keys = Rc::new(RefCell::new(Vec::new()));
+    let seen = Rc::new(RefCell::new(Vec::new()));
+    let fd = kernel::eventfd_nonblock();
+    let succ = KeyProbe { fds: vec![kernel::OwnedRaw(fd)], keys: keys.clone(), seen: seen.clone() };
+    let tok = h.insert_source(succ, |_, _, _| {}).expect("insert successor");
+    let table: Vec<(RawFd, u64)> = kernel::epoll_table(epfd).iter().map(|e| (e.tfd, e.data)).filter(|e| !base.contains(e)).collect();
+    for (i, a) in table.iter().enumerate() {
+        for b in &table[i + 1..] {
+            if a.1 == b.1 {
+                return v(
+                    "C20.inject",
+                    format!(
+                        "two registrations known to the poller carry the same key {:?}: fd {} and fd {} (slot used {reuses} time(s) before, {rejected} insertion(s) rejected half-way and handed back, then a successor inserted; successor token {:?})",
+                        cv::unpack(a.1 as usize),
+                        a.0,
+                        b.0,
+                        cv::unpack(tok.verif_key())
+                    ),
+                );
+            }
+        }
+    }
+    // an event of a rejected source's child that is still known to the poller is nobody's
+    for r in &rejected_fds {
+        kernel::eventfd_write(*r, 1);
+    }
+    el.dispatch(Some(Duration::ZERO), &mut ()).expect("dispatch");
+    if !seen.borrow().is_empty() {
+        return v("C20.inject", format!("the successor was handed events {:?} although only the rejected sources' descriptors are ready", seen.borrow().iter().map(|k| cv::unpack(*k)).collect::<Vec<_>>()));
+    }
+    drop(handed_back);
+    h.remove(tok);
+    drop(keep);
+    None
+}
+
 fn run_loop(pre_slots: u8, reuses: u32, subs: u8) -> Option<Violation> {
     let mut el: EventLoop<()> = EventLoop::try_new().expect("event loop");
     let epfd = el.as_raw_fd();
@@ -739,6 +858,11 @@ pub fn run_case(case: &Case) -> CaseOutcome {
             info.classes.push("factory");
             info.nontrivial = *n >= 255;
             run_factory(*id, *ver, *start_sub, *n)
+        }
+        Case::Rejected { pre_slots, reuses, rejected } => {
+            info.classes.push("rejected_insertions_then_successor");
+            info.nontrivial = *reuses >= 1;
+            run_rejected(*pre_slots, *reuses, *rejected)
         }
         Case::Loop { pre_slots, reuses, subs } => {
             info.classes.push("loop");
@@ -877,6 +1001,14 @@ pub fn check(ctx: &CheckCtx) -> Option<Found> {
     };
     for &reuses in big {
         let c = Case::Loop { pre_slots: 1, reuses, subs: 2 };
+        let (info, viol) = run_case(&c);
+        ctx.col.record(&info, || serde_json::to_value(&c).unwrap());
+        if let Some(vv) = viol {
+            return Some(Found { sub: "loop".into(), violation: vv, case: serde_json::to_value(&c).unwrap(), replay_path: None });
+        }
+    }
+    for (pre_slots, reuses, rejected) in [(0u8, 0u8, 1u8), (1, 1, 1), (0, 2, 2), (2, 1, 3)] {
+        let c = Case::Rejected { pre_slots, reuses, rejected };
         let (info, viol) = run_case(&c);
         ctx.col.record(&info, || serde_json::to_value(&c).unwrap());
         if let Some(vv) = viol {
